@@ -171,12 +171,12 @@ Fixpoint chunks (s : bytes) : list (N * bytes) :=
   match s with
   | [] => []
   | b0 :: r =>
-      let bad := (rune_error, [b0]) :: chunks r in
+      let bad (_ : unit) := (rune_error, [b0]) :: chunks r in   (* a thunk: extraction is strict *)
       if b0 <? 128 then (b0, [b0]) :: chunks r
       else if (194 <=? b0) && (b0 <=? 223) then
         match r with
-        | b1 :: r1 => if is_cont b1 then ((b0 - 192) * 64 + (b1 - 128), [b0; b1]) :: chunks r1 else bad
-        | [] => bad
+        | b1 :: r1 => if is_cont b1 then ((b0 - 192) * 64 + (b1 - 128), [b0; b1]) :: chunks r1 else bad tt
+        | [] => bad tt
         end
       else if (224 <=? b0) && (b0 <=? 239) then
         let lo := if b0 =? 224 then 160 else 128 in
@@ -184,8 +184,8 @@ Fixpoint chunks (s : bytes) : list (N * bytes) :=
         match r with
         | b1 :: b2 :: r2 =>
             if (lo <=? b1) && (b1 <=? hi) && is_cont b2
-            then ((b0 - 224) * 4096 + (b1 - 128) * 64 + (b2 - 128), [b0; b1; b2]) :: chunks r2 else bad
-        | _ => bad
+            then ((b0 - 224) * 4096 + (b1 - 128) * 64 + (b2 - 128), [b0; b1; b2]) :: chunks r2 else bad tt
+        | _ => bad tt
         end
       else if (240 <=? b0) && (b0 <=? 244) then
         let lo := if b0 =? 240 then 144 else 128 in
@@ -194,10 +194,10 @@ Fixpoint chunks (s : bytes) : list (N * bytes) :=
         | b1 :: b2 :: b3 :: r3 =>
             if (lo <=? b1) && (b1 <=? hi) && is_cont b2 && is_cont b3
             then ((b0 - 240) * 262144 + (b1 - 128) * 4096 + (b2 - 128) * 64 + (b3 - 128), [b0; b1; b2; b3]) :: chunks r3
-            else bad
-        | _ => bad
+            else bad tt
+        | _ => bad tt
         end
-      else bad
+      else bad tt
   end.
 
 Definition runes (s : bytes) : list N := map fst (chunks s).
